@@ -117,6 +117,8 @@ impl SchedulerContext {
         if previous > index {
             self.validation_resets.fetch_add(1, Ordering::Relaxed);
         }
+        #[cfg(grevm_verif)]
+        crate::verif::event(crate::verif::Event::Rewind { index, ts: timestamp });
     }
 
     #[inline]
